@@ -321,7 +321,7 @@ func pickLen(r *rand.Rand, mp int, big bool) int {
 func RandomTraffic(r *rand.Rand, mp int, i int) Job {
 	nids := 1 + r.Intn(8)
 	qlen := []int{1, 4, 256, 2 + r.Intn(15)}[r.Intn(4)]
-	in := TrafficIn{Kind: "traffic", Note: "random", Mp: mp, Qlen: qlen, WaitMs: 30000}
+	in := TrafficIn{Kind: "traffic", Note: "random", Mp: mp, Qlen: qlen, WaitMs: 15000}
 	for c := 0; c < nids; c++ {
 		in.Ids = append(in.Ids, uint32(1+c+r.Intn(2)*1000*c))
 		in.How = append(in.How, []string{"open", "dial", "listen"}[r.Intn(3)])
@@ -362,7 +362,7 @@ func RandomTraffic(r *rand.Rand, mp int, i int) Job {
 // BigTraffic: payloads around and above the maximum frame payload, racing with small
 // writers on the same and on other connections.
 func BigTraffic(r *rand.Rand, mp int, variant int, i int) Job {
-	in := TrafficIn{Kind: "traffic", Note: fmt.Sprintf("big%d", variant), Mp: mp, Qlen: 8, WaitMs: 120000,
+	in := TrafficIn{Kind: "traffic", Note: fmt.Sprintf("big%d", variant), Mp: mp, Qlen: 8, WaitMs: 60000,
 		Ids: []uint32{1, 2, 7}, How: []string{"open", "listen", "dial"}, Buf: mp}
 	small := func(n int, base int) []WriteSpec {
 		var p []WriteSpec
